@@ -176,4 +176,112 @@ def outLabel : String → String
   | "Int" => "int" | "Float" => "float" | "Round" => "round" | "Slice" => "slice"
   | _ => "?"
 
+/-- the input channels of each class, in positional order (the `*args` of `_node_injection` land on them in
+this order, after the owner itself when `inject_self`) -/
+def clsInputs : String → List String
+  | "GetAttr" => ["obj", "name"] | "GetItem" => ["obj", "item"]
+  | "Bool" => ["obj"] | "Length" => ["obj"] | "Negative" => ["obj"] | "Positive" => ["obj"]
+  | "Absolute" => ["obj"] | "Invert" => ["obj"] | "Int" => ["obj"] | "Float" => ["obj"] | "Round" => ["obj"]
+  | "Slice" => ["start", "stop", "step"]
+  | c => if (clsSem c).isSome then ["obj", "other"] else []
+
+/-- how many operands the user writes next to the owner -/
+def arity : Dunder → Nat
+  | .bool | .len | .neg | .pos | .abs | .invert | .int | .float | .round => 0
+  | _ => 1
+
+/-! ## values
+
+Python's own semantics of the operations is a *parameter*: `ap op [v₁, …]` is whatever Python computes
+(a value or a raised exception, `R` is arbitrary) for the operation `op` on the values in that order. -/
+
+structure Py (V R : Type) where
+  ap : PyOp → List V → R
+
+/-- what the expression the user wrote means in Python on the underlying values:
+`x + o` ↦ `add [x, o]`, `o * x` (reflected) ↦ `mul [o, x]`, `x.contains(o)` ↦ `contains [x, o]` (= `o in x`) … -/
+def exprValue {V R} (py : Py V R) (d : Dunder) (self : V) (args : List V) : R :=
+  match meaning d with
+  | (op, true) => py.ap op (self :: args)
+  | (op, false) => py.ap op (args ++ [self])
+
+/-- `node_args = (self, *args) if inject_self else args` -/
+def nodeArgs {V} (injectSelf : Bool) (self : V) (args : List V) : List V :=
+  if injectSelf then self :: args else args
+
+/-- what the node function of class `cls` (nodes/standard.py) returns on its inputs in channel order
+(`obj` first) -/
+def nodeFn {V R} (py : Py V R) (cls : String) (inputs : List V) : Option R :=
+  match clsSem cls, inputs with
+  | some (op, true), xs => some (py.ap op xs)
+  | some (op, false), obj :: rest => some (py.ap op (rest ++ [obj]))
+  | _, _ => none
+
+/-! ## the `Slice` node -/
+
+/-- the function of the `Slice` node -/
+inductive SliceFn where
+  /-- as in /repo now: refuses `x[a:]`, `x[:b:c]`, `x[::c]` with a ValueError -/
+  | strict
+  /-- repaired: `slice(start, stop, step)` -/
+  | python
+  deriving DecidableEq, Repr
+
+/-- the components as far as the node function looks at them: `none` = the value is Python's `None`.
+Result: the arguments `slice` is built from (`slice(stop)` is `slice(None, stop, None)`), or the ValueError -/
+def sliceNode {V} (f : SliceFn) (start stop step : Option V) : Except String (Option V × Option V × Option V) :=
+  match f with
+  | .python => .ok (start, stop, step)
+  | .strict =>
+    match start, stop, step with
+    | none, none, _ => .error "ValueError"
+    | none, some _, some _ => .error "ValueError"
+    | none, some b, none => .ok (none, some b, none)
+    | some _, none, _ => .error "ValueError"
+    | some a, some b, c => .ok (some a, some b, c)
+
+def noneFlag (isNone : Bool) : Option Unit := if isNone then none else some ()
+
+/-- the state of one slice component when the new `Slice` node auto-runs -/
+inductive Comp where
+  /-- the operand's value is `None` -/
+  | isNone
+  /-- any other value -/
+  | val
+  /-- a channel that holds no data yet (`NOT_DATA`) -/
+  | noData
+  deriving DecidableEq, Repr
+
+/-- what the node sees (`InputData.fetch` keeps the input's own default when the connected output holds no
+data; the defaults are `start=None, stop=NOT_DATA, step=None`): (ready, start is None, stop is None, step is None).
+So only a data-less `stop` keeps the node from running. -/
+def sliceView (a b c : Comp) : Bool × Bool × Bool × Bool :=
+  (b != .noData, a != .val, b == .isNone, c != .val)
+
+/-- does the freshly made `Slice` node raise out of its constructor (`autorun=True`)?  Only when it runs,
+i.e. when it is ready: all three inputs hold data -/
+def sliceRaises (f : SliceFn) (ready : Bool) (sN bN cN : Bool) : Bool :=
+  ready && !(sliceNode f (noneFlag sN) (noneFlag bN) (noneFlag cN)).isOk
+
+/-- `x[a:b:c]` with a channel-like component, as executed: when the new `Slice` node raises while auto-running,
+the exception leaves `__getitem__` before `GetItem` is injected (the `Slice` node stays behind as a child) -/
+def getitemSliceRun (H : Key → String) (p : Printer) (f : SliceFn) (st : St) (parent : Option Nat) (owner : Nat)
+    (slabel : String) (start stop step : Operand) (chanOf : Nat → Nat) (ready : Bool) (sN bN cN : Bool) :
+    St × Nat × Option Nat :=
+  let es : Expr := { owner := owner, slabel := slabel, cls := "Slice", ops := [start, stop, step] }
+  let r1 := inject H p st parent es
+  if r1.2 == st.next && sliceRaises f ready sN bN cN then (r1.1, r1.2, none)
+  else
+    let item := Operand.chan (chanOf r1.2) (label H p es ++ "__slice")
+    let r2 := inject H p r1.1 parent { owner := owner, slabel := slabel, cls := "GetItem", ops := [item] }
+    (r2.1, r1.2, some r2.2)
+
+/-- the value of `x[a:b:c]` as the two injected nodes compute it: `GetItem(obj = x, item = Slice(a, b, c))`.
+`mk` is Python's `slice(·, ·, ·)` on values (a parameter); a `none` component is the value `None` -/
+def sliceExprValue {V R} (py : Py V R) (mk : Option V → Option V → Option V → V) (f : SliceFn)
+    (x : V) (a b c : Option V) : Except String (Option R) :=
+  match sliceNode f a b c with
+  | .error e => .error e
+  | .ok (a', b', c') => .ok (nodeFn py "GetItem" [x, mk a' b' c'])
+
 end PwVerif.Inject
